@@ -6,7 +6,9 @@ Exit codes of a check: 0 = property held on everything explored (KNOWN-FINDING l
 import json, os, re, subprocess, sys, time, hashlib, shutil
 
 VERIF = os.path.dirname(os.path.dirname(os.path.abspath(__file__)))   # /verif, or a snapshot of it (vp run)
-REPO = "/repo"
+# The registered checks always use /repo.  VERIF_REPO exists for background sweeps of a *snapshot* (vp run --with-repo), whose
+# harness/Cargo.toml is pointed at the same snapshot by bin/bg_thorough.sh, so that /repo stays free for trying seeded changes.
+REPO = os.environ.get("VERIF_REPO", "/repo")
 SPEC = os.path.join(VERIF, "spec")
 WORK = os.path.join(VERIF, "work")
 HARNESS = os.path.join(VERIF, "harness")
